@@ -175,7 +175,7 @@ func checkC08(c *Ctx, r *rep.Report) {
 	c.Preload(c.Configs())
 	var ref *load.Program
 	for _, cfg := range c.Configs() {
-		p, _ := c.mustLoad(r, cfg)
+		p, prl := c.mustLoad(r, cfg)
 		if p == nil {
 			continue
 		}
@@ -185,6 +185,7 @@ func checkC08(c *Ctx, r *rep.Report) {
 			ruleSiblingAPI(r, ref, p)
 		}
 		ruleConfigSelection(r, p)
+		ruleLimbSizeArgs(r, p, prl)
 		timed("fieldconst", func() { ruleFieldConstants(r, p) })
 		timed("tables", func() { ruleTables(r, p) })
 		ruleScalarConstants(r, p)
